@@ -487,3 +487,14 @@ def retardation(calc, atmo, p_y, sigma):
     Mach number / BC): the scalar that multiplies the air-relative velocity in the acceleration"""
     rc = atmo.get_density_factor_and_mach_for_altitude(calc.alt0 + p_y)
     return rc[0] * sigma * calc.drag_by_mach(sigma / rc[1])
+
+
+# ---------------------------------------------------------------------------------------
+# C02: the end height of a zeroing run, as a function of the barrel elevation used (for a fixed shot and range).
+from pyvc.rt import uninterpreted  # noqa: E402
+
+
+@uninterpreted
+def zero_run_height(barrel_elevation, horizontal_range):
+    """height (ft) of the single row returned by _integrate(shot, R, R, NONE) when fired with that elevation"""
+    raise NotImplementedError('uninterpreted specification function')
